@@ -420,6 +420,65 @@ impl InterpDriver {
     }
 }
 
+const SYS_OPERANDS: [&str; 18] = [
+    "", "80", "00", "01", "81", "7f", "ff", "02", "0080", "ff7f", "ffffff7f", "ffffffff", "0000008080", "0000008000", "0102030405", "5a5a5a5a5a5a5a5a5a5a5a5a5a5a5a5a5a5a5a5a",
+    "025a5a5a5a5a5a5a5a5a5a5a5a5a5a5a5a5a5a5a5a5a5a5a5a5a5a5a5a5a5a5a5a5a", "00000000",
+];
+const SYS_OPERANDS_SMALL: [&str; 6] = ["", "01", "81", "02", "ffffff7f", "0000008080"];
+
+impl InterpDriver {
+    fn sys_opcodes() -> Vec<u8> {
+        (0u16..=255).map(|x| x as u8).filter(|b| !(1..=78).contains(b)).filter(|b| num_from_u8(*b).is_some()).collect()
+    }
+
+    pub fn systematic_total() -> u64 {
+        let n = Self::sys_opcodes().len() as u64;
+        n * (1 + 18 + 18 * 18 + 6 * 6 * 6)
+    }
+
+    pub fn systematic_plan(index: u64) -> Option<Plan> {
+        let ops = Self::sys_opcodes();
+        let per_op = 1 + 18 + 18 * 18 + 6 * 6 * 6;
+        if index >= ops.len() as u64 * per_op {
+            return None;
+        }
+        let op = ops[(index / per_op) as usize];
+        let mut r = index % per_op;
+        let mut operands: Vec<&str> = vec![];
+        if r == 0 {
+        } else if r < 1 + 18 {
+            operands.push(SYS_OPERANDS[(r - 1) as usize]);
+        } else if r < 1 + 18 + 324 {
+            r -= 19;
+            operands.push(SYS_OPERANDS[(r / 18) as usize]);
+            operands.push(SYS_OPERANDS[(r % 18) as usize]);
+        } else {
+            r -= 19 + 324;
+            operands.push(SYS_OPERANDS_SMALL[(r / 36) as usize]);
+            operands.push(SYS_OPERANDS_SMALL[((r / 6) % 6) as usize]);
+            operands.push(SYS_OPERANDS_SMALL[(r % 6) as usize]);
+        }
+        let mut prog: Vec<Value> = operands.iter().map(|h| if h.is_empty() { json!(0) } else { json!({"p": h}) }).collect();
+        // conditionals need a body to be constructible as a ScriptBit::If
+        match op {
+            99 | 100 | 101 | 102 => prog.push(json!({"if": op, "t": [81], "f": [82]})),
+            _ => prog.push(json!(op)),
+        }
+        prog.push(json!(97));
+        let with_tx = (171..=175).contains(&op);
+        let tx = if with_tx { json!({"n_in": 2, "n_out": 1, "idx": 0, "sat": "1000", "has_lock": true, "has_sat": true, "split": 0, "split_at": 0}) } else { Value::Null };
+        let events = vec![
+            json!({"op": "load", "program": prog, "via_bytes": false, "tx": tx}),
+            json!({"op": "next_n", "itp": 0, "n": 2}),
+            json!({"op": "fork", "itp": 0}),
+            json!({"op": "run", "itp": 0}),
+            json!({"op": "next_n", "itp": 1, "n": 8}),
+            json!({"op": "next", "itp": 1}),
+        ];
+        Some(Plan { config: json!({"systematic": true, "opcode": op, "operands": operands}), events })
+    }
+}
+
 const KEYS: [&str; 3] = ["0000000000000000000000000000000000000000000000000000000000000001", "7f3b2a190817161514131211100f0e0d0c0b0a090807060504030201a1b2c3d4", "fffffffffffffffffffffffffffffffebaaedce6af48a03bbfd25e8cd0364140"];
 
 struct Itp {
@@ -434,20 +493,25 @@ impl Scenario for InterpDriver {
         ScenarioInfo {
             property: "C16",
             name: "interp-driver",
-            rule: "one case = one generated program (ScriptBit tree over all opcode bytes incl. reserved/disabled/template pseudo-opcodes, Coinbase bits, nested conditionals to depth 6, operands from an alphabet of edge encodings, optional spending-transaction context with signature/multisig snippets) plus one seeded driver schedule of next / next_n / run / accessor / fork calls on 1-3 live interpreters with stdout faults (ENOSPC, EPIPE, EAGAIN after N bytes, EBADF control) armed and healed between calls; non-trivial = a fork or stdout fault fired, or the schedule mixed next and run on one interpreter, or an error/None was followed by further calls; distinct = distinct fingerprint of the (interpreter, driver-call kind, stdout health, outcome class) sequence plus the program's opcode-class sequence",
+            rule: "the first run indices enumerate every parseable opcode byte on every stack of depth 0-3 over an operand alphabet of 18 edge encodings (6 at depth 3), each stepped, forked and run; after that one case = one generated program (ScriptBit tree over all opcode bytes incl. reserved/disabled/template pseudo-opcodes, Coinbase bits, nested conditionals to depth 6, operands from an alphabet of edge encodings, optional spending-transaction context with signature/multisig snippets) plus one seeded driver schedule of next / next_n / run / accessor / fork calls on 1-3 live interpreters with stdout faults (ENOSPC, EPIPE, EAGAIN after N bytes, EBADF control) armed and healed between calls; non-trivial = a fork or stdout fault fired, or the schedule mixed next and run on one interpreter, or an error/None was followed by further calls; distinct = distinct fingerprint of the (interpreter, driver-call kind, stdout health, outcome class) sequence plus the program's opcode-class sequence",
             abstract_state: "(class of the bit about to execute, stack-depth bucket, inside a spliced branch?, driver-call kind, stdout health)",
             real: &["bsv::Interpreter (from_script, from_transaction, next, run, state, script_index, script_bits, clone)", "bsv::Script::from_script_bits / from_bytes / to_bytes", "bsv::Transaction::sign for signature operands", "process fd 1 (real /dev/full, real pipes)"],
             stub: &["reference trace = single-stepping a fresh Interpreter over the same program with a healthy stdout"],
             assumptions: &["programs whose next step would allocate more than ~1 MiB per operand (huge LSHIFT of a non-zero value, NUM2BIN to > 1 MiB, CAT/MUL of > 1 MiB operands) are dropped by the reference pass: C16 does not bound memory", "a worker abort caused by allocator exhaustion is recorded as outcome `resource`, not a violation"],
             required_probes: &["ref_finished", "ref_err", "if_branch_spliced", "run_after_next", "next_after_none", "next_after_err", "stdout_fault_during_run", "fork_applied", "checksig_reached", "multisig_reached", "codeseparator_in_spliced_branch"],
-            quick_runs: 60000,
+            quick_runs: 110_000,
             thorough_runs: 4000000,
             rlimit_as: 6 << 30,
             alloc_abort_is_violation: false,
         }
     }
 
-    fn generate(&self, rng: &mut Rng, tier: Tier, _index: u64) -> Plan {
+    fn generate(&self, rng: &mut Rng, tier: Tier, index: u64) -> Plan {
+        // systematic prefix: every parseable opcode byte on every stack of depth 0..=3 over an operand alphabet of edge
+        // encodings (depth <= 2: 18 operands, depth 3: 6), stepped and run; the seeded programs follow
+        if let Some(p) = Self::systematic_plan(index) {
+            return p;
+        }
         // rare recursion probe: a program of n nested taken conditionals built through from_script_bits
         if rng.chance(1, 3000) {
             let n = if tier == Tier::Thorough { *rng.pick(&[200u64, 5_000, 20_000, 60_000, 150_000]) } else { *rng.pick(&[50u64, 200, 3_000]) };
